@@ -102,3 +102,24 @@ RIDGE = {
 
 UNITS["online"] = ONLINE
 UNITS["ridge"] = RIDGE
+
+# ---------------------------------------------------------------------------------------------------------------- intrinsic plasticity
+IP = {
+    "module": "GenIP", "out": "Gen_ip.v",
+    "fields": {"a": V("col"), "b": V("col"), "mu": S, "sigma": S, "learning_rate": S, "tanh_rule": B},
+    # reservoir.activation_type is 'tanh' or 'sigmoid' (checked by IPReservoir.__init__): the test is a boolean attribute here
+    "bool_exprs": {"reservoir.activation_type == 'tanh'": "tanh_rule"},
+    "functions": [
+        {"name": "gaussian_gradients", "file": "reservoirpy/nodes/reservoirs/intrinsic_plasticity.py",
+         "params": {"x": V("col"), "y": V("col"), "a": V("col"), "mu": S, "sigma": S, "eta": S}},
+        {"name": "exp_gradients", "file": "reservoirpy/nodes/reservoirs/intrinsic_plasticity.py",
+         "params": {"x": V("col"), "y": V("col"), "a": V("col"), "mu": S, "eta": S}},
+        {"name": "apply_gradients", "file": "reservoirpy/nodes/reservoirs/intrinsic_plasticity.py",
+         "params": {"a": V("col"), "b": V("col"), "delta_a": V("col"), "delta_b": V("col")}},
+        {"name": "ip", "file": "reservoirpy/nodes/reservoirs/intrinsic_plasticity.py", "objects": ["reservoir"],
+         "params": {"reservoir": "OBJ", "pre_state": V("row"), "post_state": V("row")}},
+        {"name": "ip_activation", "file": "reservoirpy/nodes/reservoirs/intrinsic_plasticity.py", "objects": ["reservoir"], "kwonly": True,
+         "params": {"state": V("col"), "reservoir": "OBJ", "f": FN}},
+    ],
+}
+UNITS["ip"] = IP
